@@ -10,3 +10,4 @@ for p in "$@"; do
   python3 checks/check.py $p --tier $tier 2>&1 | grep -E "VIOLATION|KNOWN|^\[" 
 done
 git -C /repo checkout -- .
+python3 /verif/translator/translate.py >/dev/null   # regenerate lean/PsModel/Generated from the restored tree
